@@ -55,6 +55,7 @@ REVERTS = [
     ('F56-nesting-depth-bounded', 'cb753fd', {'C04': ['focus:nesting-depth-bounded']}),
     ('F57-output-index-guarded', '6b579e5', {'C09': ['read:output-index-guarded:<base64::reader::Base64Reader<R> as std::io::Read>::read']}),
     ('F58-image-header-unknown-version', 'd1a0ebc', {'C05': ['S05-14:image-header-length-formula']}),
+    ('F59-cleartext-cr-blank-lf', 'f959d6a', {'C16': ['S16-1:trimmed-cr-kept-as-content']}),
     ('F23-boolean-subpackets', '1b5ba7a', {'C05': ['S05-8:lossless-bool'], 'C02': ['S05-8:lossless-bool']}),
 ]
 tests = [dict(name='revert:' + n, kind='revert-fix', commit=c, expect=e) for n, c, e in REVERTS]
